@@ -260,10 +260,11 @@ fn main() {
         let range: espada::hand_range::HandRange = text.parse().unwrap();
         let want_text = range.to_string();
         let spec = find("identical")[0].clone();
-        let first_sd = solo_safe(&spec).get(1).cloned().unwrap_or_default();
+        let first_sd = solo_safe(&spec).get(2).cloned().unwrap_or_default();
         out.push(explore("shared-through-arc", "one HandRange and one Showdown behind an Arc, read by two threads at once (to_string / rank_pairs / players / board), yield_now() between reads", cap, move || {
             let r = Arc::new(ForceSend(text.parse::<espada::hand_range::HandRange>().unwrap()));
             let mut a = Actor::new(&spec);
+            a.step();
             a.step();
             let sd = match &mut a.state {
                 State::EvalRunning(it) => Arc::new(ForceSend(it.next().unwrap())),
